@@ -66,6 +66,30 @@ def rules(t):
     for c in pushes:
         r.site(c)
         if "send_channels_config" not in fmt(t.arg(c, 1)) and "channel_config" not in fmt(t.arg(c, 1)) and "Iter::next" not in fmt(t.arg(c, 1)): r.bad("order-src", c, "send order entry not derived from the iterated send channel config")
+    # the order vector is only ever appended to: every mutable borrow of it (local in from_channels, field elsewhere) feeds Vec::push
+    ol = [l["i"] for l in fc.locals if l.get("name") == "channel_send_order"]
+    if not ol: r.bad("order-local", None, "channel_send_order local not found in from_channels")
+    else:
+        muts = {}
+        for x in t.sites(fc):
+            n = x.node
+            if n["k"] == "assign" and n["rv"]["k"] in ("ref", "rawptr") and n["rv"].get("mut") and n["rv"]["place"]["local"] == ol[0] and not n["place"]["proj"]: muts[n["place"]["local"]] = x
+        for x in t.sites(fc):
+            n = x.node
+            if n["k"] == "call":
+                for a in n["args"]:
+                    if a["k"] in ("copy", "move") and not a["place"]["proj"] and a["place"]["local"] in muts:
+                        r.site(x, "order mutation " + method_of(callee_name(n)))
+                        if method_of(callee_name(n)) != "push": r.bad(f"order-mutated|{method_of(callee_name(n))}", x, f"channel_send_order is modified by {short(callee_name(n))}(): the send order is no longer the configuration order")
+        used = {a["place"]["local"] for x in t.sites(fc) if x.node["k"] == "call" for a in x.node["args"] if a["k"] in ("copy", "move") and not a["place"]["proj"]}
+        for l_, x in muts.items():
+            if l_ not in used: r.bad("order-borrow", x, "channel_send_order is mutably borrowed in a way the rule cannot follow")
+    for x in t.sites():
+        n = x.node
+        if n["k"] == "assign" and n["rv"]["k"] in ("ref", "rawptr") and n["rv"].get("mut") and n["rv"]["place"]["proj"] and n["rv"]["place"]["proj"][-1].get("name") == "channel_send_order":
+            r.bad(f"{x.fn.path}|order-field-mut", x, "channel_send_order is mutably borrowed after construction")
+    for s in t.stores("remote_connection::RenetClient", "channel_send_order"):
+        r.bad(f"{s.fn.path}|order-store", s, "channel_send_order is reassigned after construction")
     for s in t.effects("channel_send_order", GROW | SHRINK):
         if not s.fn.path.endswith("::from_channels"): r.bad(f"{s.fn.path}|order-write", s, "channel_send_order changed after construction")
     out.append(r)
